@@ -1,9 +1,10 @@
 """Object graphs over a model IR: strategy, construction, and the isomorphism (bisimulation) comparer.
 
-Graph IR: {"nodes":[{"c": class index | "Vec", "v": {field: value}}], "roots":[node indexes]}
+Graph IR: {"nodes":[{"c": class index | "Vec" | "Label" | "Title", "v": {field: value}}], "roots":[node indexes]}
   value per field kind: scalar -> JSON scalar (datetime as iso string, enum as "RED"/"BLUE", float as hex string);
   opt -> None or the inner value; list of builtins -> list; ref -> node index (or None for Optional);
-  collection of refs -> list of node indexes; alt -> node index of a Vec node; custom -> int (cents) or None.
+  collection of refs -> list of node indexes; alt -> node index of a Vec node; lab -> node index of a Label/Title
+  node (Title: a normally mapped subclass of the alternatively mapped Label); custom -> int (cents) or None.
 """
 from __future__ import annotations
 
@@ -14,6 +15,9 @@ from typing import Any, Dict, List, Optional
 from hypothesis import strategies as st
 
 from . import modelir as MI
+
+EXTRA_NODES = ("Vec", "Label", "Title")
+EXTRA_REFS = ("alt", "lab")
 
 
 # ----------------------------------------------------------------------------- strategy
@@ -49,7 +53,7 @@ def graph_ir(draw, model, max_nodes=8, sql=False):
     vec_nodes: List[int] = []
 
     def instances_of(target):
-        return [i for i, nd in enumerate(nodes) if nd["c"] != "Vec" and (nd["c"] == target or target in MI.ancestors(model, nd["c"]))]
+        return [i for i, nd in enumerate(nodes) if nd["c"] not in EXTRA_NODES and (nd["c"] == target or target in MI.ancestors(model, nd["c"]))]
 
     def new_vec():
         if vec_nodes and draw(st.booleans()):
@@ -57,6 +61,19 @@ def graph_ir(draw, model, max_nodes=8, sql=False):
         # x is unique per Vec node, so that collections of Vecs can be matched without guessing after SQL
         nodes.append({"c": "Vec", "v": {"x": (float(len(nodes)) + draw(st.sampled_from([0.0, 0.5]))).hex(), "y": draw(st.sampled_from([0.0, 0.25, -1.0])).hex()}})
         vec_nodes.append(len(nodes) - 1)
+        return len(nodes) - 1
+
+    lab_nodes: List[int] = []
+
+    def new_lab():
+        if lab_nodes and draw(st.booleans()):
+            return draw(st.sampled_from(lab_nodes))  # the same label object referenced from several places
+        c = draw(st.sampled_from(["Label", "Title", "Title"]))
+        v = {"text": draw(st.sampled_from(["", "a", "é b"])), "code": len(nodes)}  # code is unique per node
+        if c == "Title":
+            v["size"] = draw(st.integers(-2, 2))
+        nodes.append({"c": c, "v": v})
+        lab_nodes.append(len(nodes) - 1)
         return len(nodes) - 1
 
     for i in range(n):
@@ -80,6 +97,8 @@ def graph_ir(draw, model, max_nodes=8, sql=False):
                         val = draw(st.sampled_from(cands)) if cands else None
                     elif inner["k"] == "alt":
                         val = new_vec()
+                    elif inner["k"] == "lab":
+                        val = new_lab()
                     elif inner["k"] == "custom":
                         val = draw(st.integers(-5, 500))
                     else:
@@ -96,10 +115,14 @@ def graph_ir(draw, model, max_nodes=8, sql=False):
                     val = draw(st.lists(st.sampled_from(cands), max_size=4, unique=(k == "set"))) if cands else []
                 elif inner["k"] == "alt":
                     val = [new_vec() for _ in range(draw(st.integers(0, 3)))]
+                elif inner["k"] == "lab":
+                    val = [new_lab() for _ in range(draw(st.integers(0, 3)))]
                 else:
                     val = []
             elif k == "alt":
                 val = new_vec()
+            elif k == "lab":
+                val = new_lab()
             elif k == "custom":
                 val = draw(st.integers(-5, 500))
             else:
@@ -133,10 +156,12 @@ def build_graph(model, graph, mod, clss):
     for nd in graph["nodes"]:
         if nd["c"] == "Vec":
             objs.append(mod.Vec(float.fromhex(nd["v"]["x"]), float.fromhex(nd["v"]["y"])))
+        elif nd["c"] in ("Label", "Title"):
+            objs.append(getattr(mod, nd["c"])(**nd["v"]))
         else:
             objs.append(clss[nd["c"]]())
     for obj, nd in zip(objs, graph["nodes"]):
-        if nd["c"] == "Vec":
+        if nd["c"] in EXTRA_NODES:
             continue
         for f in MI.all_fields(model, nd["c"]):
             name, t = f["name"], f["t"]
@@ -150,11 +175,11 @@ def build_graph(model, graph, mod, clss):
                     val = None
                 elif ik in MI.PY:
                     val = decode_scalar(ik, v, mod)
-                elif ik in ("ref", "alt"):
+                elif ik in ("ref",) + EXTRA_REFS:
                     val = objs[v]
                 elif ik == "custom":
                     val = mod.Money(v)
-            elif k in ("ref", "alt"):
+            elif k in ("ref",) + EXTRA_REFS:
                 val = None if v is None else objs[v]
             elif k == "custom":
                 val = None if v is None else mod.Money(v)
@@ -222,6 +247,10 @@ def isomorphic(model, mod, roots_a, roots_b, ordered_collections=True, exact_sca
             same_scalar(a.x, b.x, path + ".x")
             same_scalar(a.y, b.y, path + ".y")
             continue
+        if type(a).__name__ in ("Label", "Title"):
+            for attr in ("text", "code") + (("size",) if type(a).__name__ == "Title" else ()):
+                same_scalar(getattr(a, attr), getattr(b, attr, "<missing>"), f"{path}.{attr}")
+            continue
         ci = names.index(type(a).__name__)
         for f in MI.all_fields(model, ci):
             name, t = f["name"], f["t"]
@@ -236,7 +265,7 @@ def isomorphic(model, mod, roots_a, roots_b, ordered_collections=True, exact_sca
             elif k == "custom" or (k == "opt" and inner == "custom"):
                 if (va is None) != (vb is None) or (va is not None and (type(vb).__name__ != "Money" or va.cents != vb.cents)):
                     raise Mismatch("custom_typed_value_changed", f"{p}: {getattr(va, 'cents', va)!r} became {getattr(vb, 'cents', vb)!r}")
-            elif k in ("ref", "alt") or (k == "opt" and inner in ("ref", "alt")):
+            elif k in ("ref",) + EXTRA_REFS or (k == "opt" and inner in ("ref",) + EXTRA_REFS):
                 pair(va, vb, p)
             elif k in ("list", "set"):
                 if vb is None or isinstance(vb, str) or not hasattr(vb, "__iter__"):
@@ -274,6 +303,8 @@ def isomorphic(model, mod, roots_a, roots_b, ordered_collections=True, exact_sca
 def key_of(x):
     if type(x).__name__ == "Vec":
         return ("Vec", x.x, x.y)
+    if type(x).__name__ in ("Label", "Title"):
+        return ("Label", x.code)
     return (type(x).__name__, getattr(x, "uid", None))
 
 
@@ -286,14 +317,14 @@ def reachable(model, roots):
         if o is None or id(o) in seen:
             continue
         seen[id(o)] = o
-        if type(o).__name__ == "Vec":
+        if type(o).__name__ in EXTRA_NODES:
             continue
         ci = names.index(type(o).__name__)
         for f in MI.all_fields(model, ci):
             if f["name"].startswith("_"):
                 continue
             e = MI.endpoint(f["t"])
-            if e["k"] not in ("ref", "alt"):
+            if e["k"] not in ("ref",) + EXTRA_REFS:
                 continue
             v = getattr(o, f["name"])
             if v is None:
@@ -305,17 +336,18 @@ def reachable(model, roots):
 def graph_stats(model, graph):
     indeg = [0] * len(graph["nodes"])
     for nd in graph["nodes"]:
-        if nd["c"] == "Vec":
+        if nd["c"] in EXTRA_NODES:
             continue
         for f in MI.all_fields(model, nd["c"]):
             if f["name"].startswith("_"):
                 continue
             e = MI.endpoint(f["t"])
-            if e["k"] not in ("ref", "alt"):
+            if e["k"] not in ("ref",) + EXTRA_REFS:
                 continue
             v = nd["v"].get(f["name"])
             if v is None:
                 continue
             for j in (v if isinstance(v, list) else [v]):
                 indeg[j] += 1
-    return dict(shared=sum(1 for d in indeg if d >= 2), nodes=len(indeg))
+    shared_title = sum(1 for d, nd in zip(indeg, graph["nodes"]) if d >= 2 and nd["c"] == "Title")
+    return dict(shared=sum(1 for d in indeg if d >= 2), nodes=len(indeg), shared_title=shared_title)
